@@ -11,6 +11,9 @@ CHECKS = {
     "C12": dict(cat="other", tech="symbolic execution of the rule constructors (z3 terms) + SMT (LIA path exploration for unbounded orders, LRA over all polynomials with symbolic coefficients, NRA for Duffy region maps)",
                 text="Bounded symbolic verification: lookups decided for every integer order (all paths of the real lookup code), exactness decided for every polynomial of the stated degree for all 20 triangle / 30 Gauss orders and Duffy orders 2..4 (5 thorough), region maps for all 1-D nodes in (0,1), remaps for every point. unsat = holds for all values within these bounds.",
                 ref="3/C12"),
+    "C20": dict(cat="translation_validation", tech="LLVM-IR (clang on the current OpenCL headers) symbolic interpreter vs symbolic execution of the Numba kernels; per-lane equivalence queries in QF_NRA with abstracted sqrt/exp/cos/sin + congruence (z3/cvc5)",
+                text="Translation validation of two hand translations of the same formulas: every OpenCL kernel variant (14 kernels x 4 widths x 2 precisions) and the 4 shapeset headers are proved equal, lane by lane and path by path, to the Numba function the selection tables pair them with, for all real inputs with distinct points.",
+                ref="3/C20"),
 }
 NA = {
     "C01": "a convergence statement about floating-point quadrature of singular kernels (exists order, for all meshes, 1e4-1e6 sqrt atoms per instance): no bounded SMT encoding within reach; its algebraic ingredients are decided under the other properties (DESIGN.md 3/C01)",
